@@ -4,7 +4,7 @@ import LyModel.Merge.LemmasDupSibs
 import LyModel.Merge.LemmasCanon
 import LyModel.Merge.LemmasParents
 import LyModel.Merge.LemmasFlags2
-import LyModel.Merge.LemmasDI9
+import LyModel.Merge.LemmasDI11
 /-!
 # C14 — merging and duplicating trees preserve content (property theorems)
 
@@ -18,9 +18,11 @@ generated tree (op `wf`).  Helper lemmas live in `LyModel/Merge/Lemmas*.lean`.
 |---------------------------------|------------------------------------------------------------------------------|----------------|
 | `merge_into_empty` (+`_eq_dup`) | merge into the empty target = copy of the source = `lyd_dup_siblings` + NEW   | all wf         |
 | `merge_destruct_eq_copy`        | moving (`LYD_MERGE_DESTRUCT`) and copying give the same tree; `_fails` without consistent flags | all (flags ok) |
-| `merge_idempotent_partial`      | merging the same source again changes nothing                                | source without key-less list / state leaf-list instances (full statement OPEN) |
-| `merge_contains_source`         | every source node is found by its path, explicit leaves with the source's value | same fragment |
-| `merge_keeps_untouched_target`  | a target node whose path the source does not contain is unchanged            | same fragment  |
+| `merge_idempotent` (`_partial`: the earlier fragment) | merging the same source again changes nothing              | all wf (key-less list / state leaf-list instances included) |
+| `merge_contains_source`         | every source node is found by its path, explicit leaves with the source's value | source without key-less list / state leaf-list instances |
+| `merge_contains_source_pos`     | … by positions: the `k`-th source instance of a class of equal instances is the `k`-th of the result | all wf |
+| `merge_keeps_untouched_target`  | a target node whose path the source does not contain is unchanged            | source without such instances, path without them |
+| `merge_keeps_untouched_target_pos` | … by positions                                                             | all wf         |
 | `merge_result_canonical`, `merge_result_canon_fixpoint`, `merge_result_wf` | the result is well-formed again (shape, order, uniqueness, flags) | all wf |
 | `dup_equal_recursive`, `_content`, `_with_flags`, `dup_no_meta`, `dup_shallow` | a duplicate is the original relabelled as the options say | all (flags ok) |
 | `dup_with_parents`              | the chain of ancestors with their keys and only the path to the node         | all            |
@@ -102,8 +104,9 @@ theorem merge_destruct_eq_copy_fails :
 
 /-! ## idempotence -/
 
-/-- **merge_idempotent** (fragment: the source has no instance of a key-less list / state leaf-list): merging the same
-source again changes nothing — not a flag, not the order.  Any well-formed target (it may contain such instances). -/
+/-- **merge_idempotent**, the earlier fragment (the source has no instance of a key-less list / state leaf-list) with
+its own, cache-free proof; the full statement is `merge_idempotent` below.  Merging the same source again changes
+nothing — not a flag, not the order.  Any well-formed target (it may contain such instances). -/
 theorem merge_idempotent_partial (S : Schema) (o : MergeOpts) (t s : List DNode) (ht : wfForest S t = true)
     (hs : wfForest S s = true) (hd : noDupInstL S s = true) : merge S o (merge S o t s) s = merge S o t s := by
   obtain ⟨ht1, _⟩ := wfSibs_parts ht
@@ -158,7 +161,8 @@ example : wfForest exDS exDT = true ∧ wfForest exDS exDSrc = true ∧ noDupIns
 in the result (`descend`) finds a node `n` of `x`'s schema node and identity; if `x` is a leaf that is explicit — or any
 leaf under `LYD_MERGE_DEFAULTS` — `n` has `x`'s value and default flag (and, with `LYD_MERGE_WITH_FLAGS`, all its flags).
 A default leaf of the source without `LYD_MERGE_DEFAULTS` is also found, with the target's value if the target had one.
-Fragment: source without key-less list / state leaf-list instances (those have no identity; see OPEN above). -/
+Fragment: source without key-less list / state leaf-list instances (those have no identity; `merge_contains_source_pos`
+addresses them by position). -/
 theorem merge_contains_source (S : Schema) (o : MergeOpts) (t s : List DNode) (ht : wfForest S t = true)
     (hs : wfForest S s = true) (hd : noDupInstL S s = true) (chain : List DNode) (x : DNode)
     (hc : IsChain S chain false s) (hx : chain.getLast? = some x) :
@@ -265,6 +269,40 @@ example :
       (descend exS [cT, ll2] exSrc).isNone = true ∧
       (descend exS [cT, ll2] (merge exS {} exT exSrc)).map (·.val) = some [50] := by
   decide
+
+/-- **merge_keeps_untouched_target, by positions** (all well-formed trees, nodes in or below instances of key-less lists
+/ state leaf-lists included).  A target node `y` is addressed by the chain of target nodes leading to it (no list keys),
+each with its position among the siblings its own lookup accepts (`IsChainT`): for an instance of a key-less list / state
+leaf-list the number of equal instances before it, 0 for every other node of a well-formed tree.  If the source does not
+contain that path (`descendK … s = none`: at some level it has no `k`-th such node — e.g. it holds fewer equal instances
+than the target), then the same positions lead, in the result, to `y` itself: the whole subtree with its values, flags,
+metadata and order, unchanged.  Together with `merge_contains_source_pos`: per class of equal instances the result holds
+the target's instances first — the `k`-th merged with the `k`-th of the source if there is one, else untouched — then the
+surplus of the source.  For chains without duplicate-instance nodes this is `merge_keeps_untouched_target`. -/
+theorem merge_keeps_untouched_target_pos (S : Schema) (o : MergeOpts) (t s : List DNode) (ht : wfForest S t = true)
+    (hs : wfForest S s = true) (chain : List (DNode × Nat)) (y : DNode) (k : Nat) (hc : IsChainT S chain t)
+    (hck : ∀ c ∈ chain, S.isKey c.1.sid = false) (hy : chain.getLast? = some (y, k))
+    (hn : descendK S chain s = none) : descendK S chain (merge S o t s) = some y := by
+  simp only [wfForest, wfSibs, Bool.and_eq_true] at ht hs
+  obtain ⟨⟨⟨⟨t1, _⟩, t3⟩, t4⟩, _⟩ := ht
+  obtain ⟨⟨⟨⟨s1, _⟩, s3⟩, s4⟩, s5⟩ := hs
+  exact keepK_chain S o chain none s [] false { cur := t } y k ⟨t1, t3, t4⟩ rfl
+    (fun c hc' => ⟨(shapeAll_iff S none s).1 s1 c hc', (ordAll_iff S s).1 s4 c hc', (flagsOkL_iff s).1 s5 c hc'⟩)
+    s3 hc hck hy (by simpa [procList] using hn)
+
+/-- non-vacuity (`exDSrc` as the target, `exDT` as the source): the target's second `sl = 1` and the leaf below its
+second `kl {a = x}` have no counterpart in the source — it has one of each — and are found where they were -/
+example :
+    let v := DNode.term 0 {} [] [49]
+    let l := DNode.inner 1 {} [] [.term 2 {} [] [120]]
+    let a := DNode.term 2 {} [] [120]
+    IsChainT exDS [(v, 1)] exDSrc ∧ (descendK exDS [(v, 1)] exDT).isNone = true ∧
+      (descendK exDS [(v, 1)] (merge exDS {} exDSrc exDT)).map (·.val) = some [49] ∧
+      IsChainT exDS [(l, 1), (a, 0)] exDSrc ∧ (descendK exDS [(l, 1), (a, 0)] exDT).isNone = true ∧
+      (descendK exDS [(l, 1), (a, 0)] (merge exDS {} exDSrc exDT)).map (·.val) = some [120] := by
+  refine ⟨⟨[.term 0 {} [] [50], .term 0 {} [] [49]], _, rfl, by decide⟩, by decide, by decide,
+    ⟨⟨[.term 0 {} [] [50], .term 0 {} [] [49], .term 0 {} [] [49], .inner 1 {} [] [.term 2 {} [] [120]]], _, rfl,
+      by decide⟩, ⟨[], [], rfl, by decide⟩⟩, by decide, by decide⟩
 
 /-! ## the result is in canonical order -/
 
